@@ -555,6 +555,52 @@ pub fn run(ctx: &mut Ctx) {
         }
         run::end_case();
     });
+    // env_remove(NAME) on a command that otherwise inherits: NAME is absent in the child - also when the caller did not have
+    // it at that moment and gets it before the command is run (removed is removed)
+    let nr = ctx.n(60, 1200);
+    ctx.family("removed-names", nr, |ctx, rng, i| {
+        run::begin_case();
+        let dir = ctx.scratch("c06r");
+        let exe = spawn::report_exe(ctx, &dir, "r", "x");
+        let name = format!("VERIF_C06_REMOVED_{}", i % 5);
+        std::env::remove_var(&name);
+        let had_it = i % 3 == 0;
+        if had_it {
+            std::env::set_var(&name, "there-from-the-start");
+        }
+        let mut e = subprocess::Exec::cmd(&exe).env_remove(&name);
+        if i % 4 == 1 {
+            e = e.clone();
+        }
+        if rng.chance(500) {
+            e = e.arg("x");
+        }
+        // ... the caller's environment moves on
+        std::env::set_var(&name, "appeared-later");
+        let route = i % 3;
+        let m = run::monitored(move || -> Result<(), String> {
+            match route {
+                0 => e.join().map(|_| ()),
+                1 => e.stdout(Redirection::Pipe).capture().map(|_| ()),
+                _ => (e | subprocess::Exec::cmd("true")).join().map(|_| ()),
+            }
+            .map_err(|e| e.to_string())
+        });
+        std::env::remove_var(&name);
+        ctx.count("launches_after_env_remove_of_a_name_that_appears_later", 1);
+        ctx.distinct(&format!("removed|{}|{}|{}", had_it, route, i % 4 == 1));
+        match (m.result, spawn::get_report(&exe, 3000)) {
+            (Some(Ok(())), Some(r)) => {
+                ctx.count("children_inspected", 1);
+                let prefix = format!("{}=", name).into_bytes();
+                if let Some(entry) = r.env.iter().find(|e| e.starts_with(&prefix)) {
+                    ctx.violation("C06/env/removed-name-present", "a name removed with env_remove() is in the child's environment", J::obj().set("entry", J::bytes(entry)).set("caller_had_it_when_removed", J::Bool(had_it)));
+                }
+            }
+            (res, _) => ctx.inconclusive("launch did not run", J::s(&format!("{:?}", res))),
+        }
+        run::end_case();
+    });
     // the parent has no PATH (or an empty one) and the program is a bare name; whatever program of that name the launch
     // finds (one in the working directory, one on a default path), it is given exactly the environment that was requested
     let np = ctx.n(60, 1500);
